@@ -31,6 +31,10 @@ def run(ctx):
         n = dlrules.source_untouched(ck, prog, config, 'C08-d')
         ck.min_instances('write sites in dl.c', n, 4)
         dlrules.mismatch_arm(ck, prog, config, 'C08-e', 'write_and_verify_chunk', dlrules.CMP_FUNCS, TOP & ~Z, 'mismatch-arm')
+        from ..rules import extra
+        extra.check_nullable_key(ck, prog, config, 'C08-c')
+        dlrules.chunk_loop(ck, prog, config, 'C08-e', 'zero_chunk', 'tgt_idx->comp_length', [('write_data', 3)],
+                           seek_want=[('tgt', Lin({'tgt->data_offset': 1, 'tgt_idx->start': 1}))])
         dlrules.chunk_loop(ck, prog, config, 'C08-f', 'write_and_verify_chunk', 'src_idx->comp_length',
                            [('read_data', 2), ('hash_update', 3), ('write_data', 3)],
                            seek_want=[('src', Lin({'src->data_offset': 1, 'src_idx->start': 1})),
